@@ -1353,10 +1353,34 @@ def _witness_wrong_coordinate_type():
     return None
 
 
+def _witness_hands_out_internals():
+    """(a) a freshly built group returns the caller's own arrays and list: editing them afterwards changes what the object reports while
+    the encoded attributes keep the original; (b) the list a parsed group hands out is its cached list: pop() loses an annotation"""
+    import highdicom as hd
+    from highdicom.ann import AnnotationGroup
+    data = [np.array([[1.0, 2.0]], np.float32), np.array([[3.0, 4.0]], np.float32)]
+    g = AnnotationGroup(number=1, uid=hd.UID(), label='w', annotated_property_category=_code(CODES[0]),
+                        annotated_property_type=_code(CODES[2]), graphic_type='POINT', graphic_data=data, algorithm_type='MANUAL')
+    out = {}
+    got = g.get_graphic_data('2D')
+    got[0][0, 0] = -777.0
+    stored = np.frombuffer(g.PointCoordinatesData, '<f4').tolist()
+    if float(g.get_coordinates(1, '2D')[0, 0]) == -777.0 and stored[0] == 1.0:
+        out['fresh'] = {'reported after the edit': g.get_coordinates(1, '2D').tolist(), 'encoded': stored}
+    p = AnnotationGroup.from_dataset(g, copy=True)
+    lst = p.get_graphic_data('2D')
+    lst.pop()
+    if len(p.get_graphic_data('2D')) != 2:
+        out['parsed list'] = {'annotations reported after pop() on the returned list': len(p.get_graphic_data('2D')), 'NumberOfAnnotations': int(p.NumberOfAnnotations)}
+    return out or None
+
+
 def replay(ctx, case):
     sub = type(ctx)(ctx.prop, ctx.tier, ctx.seed, 1, ctx.driver)
     if case.get('what') == 'wrong-coordinate-type':
         return _witness_wrong_coordinate_type()
+    if case.get('what') == 'hands-out-internals':
+        return _witness_hands_out_internals()
     if case.get('what') == 'object':
         _object(sub, case['idx'], [], [], stream=case.get('stream', 'obj'))
     elif case.get('what') == 'malformed':
